@@ -31,12 +31,16 @@ ASSUME = ["creator_file answers that are not strings make the driver use the uid
 
 def run(ck):
     ex = build(ck)
+    P, A = ex["h_c20"], ex["h_c20a"]
+    # policies are ordered: creator_file by-directory x valid_seteuid {own, approve, refuse} come first (--ncfg=3)
     if ck.tier == "quick":
-        ck.explore(ex["h_c20"], ["--depth=4"], "d4", budget=0, deadline_s=150, jobs=JOBS)
-        ck.explore(ex["h_c20a"], ["--depth=3"], "d3-asan", budget=0, deadline_s=60, jobs=JOBS)
+        ck.explore(P, ["--depth=4", "--ncfg=3", "--kinds=2"], "d4-by-directory", budget=0, deadline_s=110, jobs=JOBS)
+        ck.explore(P, ["--depth=3", "--ncfg=12", "--kinds=3"], "d3-all-policies", budget=0, deadline_s=90, jobs=JOBS)
+        ck.explore(A, ["--depth=2", "--ncfg=12", "--kinds=3"], "d2-all-policies-asan", budget=0, deadline_s=30, jobs=JOBS)
     else:
-        ck.explore(ex["h_c20"], ["--depth=5"], "d5", budget=0, deadline_s=1800, jobs=JOBS)
-        ck.explore(ex["h_c20a"], ["--depth=4"], "d4-asan", budget=0, deadline_s=500, jobs=JOBS)
+        ck.explore(P, ["--depth=5", "--cfg=0", "--kinds=2"], "d5-by-directory-own", budget=0, deadline_s=800, jobs=JOBS)
+        ck.explore(P, ["--depth=4", "--ncfg=12", "--kinds=3"], "d4-all-policies", budget=0, deadline_s=1200, jobs=JOBS)
+        ck.explore(A, ["--depth=3", "--ncfg=12", "--kinds=3"], "d3-all-policies-asan", budget=0, deadline_s=350, jobs=JOBS)
     ck.finish(vlib.mc_coverage(ck.parts, RULE), assumptions=ASSUME)
 
 
